@@ -62,6 +62,22 @@ class watchdog:
         return False
 
 
+RUN_DIR = None  # per-run scratch directory, created by the parent before workers are forked
+
+
+def rundir():
+    """Scratch directory of this run (created on demand in replay mode; removed at exit)."""
+    global RUN_DIR
+    if RUN_DIR is None or not os.path.isdir(RUN_DIR):
+        import atexit
+
+        RUN_DIR = mkwork("run")
+        pid = os.getpid()
+        d = RUN_DIR
+        atexit.register(lambda: os.getpid() == pid and rmwork(d))
+    return RUN_DIR
+
+
 def mkwork(prefix="w"):
     os.makedirs(WORK, exist_ok=True)
     return tempfile.mkdtemp(prefix=prefix + "-", dir=WORK)
@@ -133,6 +149,9 @@ class Ctx:
         self.known = load_known(self.prop)
         self.replay_dir = os.path.join(VERIF, "replays", self.prop)
         self.harness_errors = []
+        global RUN_DIR
+        RUN_DIR = mkwork(self.prop.lower())
+        self.workdir = RUN_DIR
 
     # ---- parallel map -------------------------------------------------------------------
     def pmap(self, fn, units, chunksize=1, nproc=None):
@@ -188,6 +207,7 @@ class Ctx:
 
     # ---- finish -------------------------------------------------------------------------
     def finish(self, coverage, assumptions=()):
+        rmwork(self.workdir)
         if self.harness_errors:
             sys.stderr.write("HARNESS ERROR in %s (not a property verdict):\n%s\nunit=%s\n"
                              % (self.prop, self.harness_errors[0][1], self.harness_errors[0][2]))
